@@ -110,14 +110,18 @@ fn get_delta_header_size(
         }
         let cmd = delta[*index];
         *index += 1;
-        // A size header longer than the word size cannot describe a buffer
-        // that exists; refuse it rather than overflowing the shift.
+        // A size that does not fit the word cannot describe a buffer that
+        // exists; refuse it rather than overflowing the shift. Padding with
+        // zero bits loses nothing and is accepted, as by git and by the
+        // Python implementation.
         let bits = (cmd & !0x80) as usize;
-        if i >= usize::BITS as usize || (bits << i) >> i != bits {
-            return Err("delta size header too large");
+        if bits != 0 {
+            if i >= usize::BITS as usize || (bits << i) >> i != bits {
+                return Err("delta size header too large");
+            }
+            size |= bits << i;
         }
-        size |= bits << i;
-        i += 7;
+        i = i.saturating_add(7);
         if cmd & 0x80 == 0 {
             return Ok(size);
         }
